@@ -395,6 +395,9 @@ def _np_add(models, it, args, kw, fr, node):
 
 
 def _pd_dataframe(models, it, args, kw, fr, node):
+    if args and isinstance(args[0], _arrays.SNd):
+        from .libmodels import _pd_dataframe_nd      # a validated batch: opaque frame (HistogramDensityMethod skeleton)
+        return _pd_dataframe_nd(models, it, args, kw, fr, node)
     o = _mat_of(it, args[0]) if args else None
     cols = kw.get("columns")
     if isinstance(cols, SOpt):
